@@ -7,7 +7,12 @@ from vlib import core
 from harness import wsgen, wsrun, wsoracle
 
 PROP = "C05"
-PROOF_MODULES = ["Abverif.Proofs.C05"]
+PROOF_MODULES = ["Abverif.Proofs.Lemmas.WsFrame", "Abverif.Proofs.Lemmas.WsExt", "Abverif.Proofs.C05"]
+MANIFEST_ENTRY = {
+    "technique": 'Lean 4 invariants by induction over arbitrary operation histories (Ext relation over every engine function) + history correspondence + CloseSpec trace oracle',
+    "text": 'Proved for every configuration and every finite history of API calls, reads, clock advances and connection loss on the model: the state only moves forward (state_monotone); onClose is delivered exactly once, exactly when the transport is gone, and by no other event (onClose_at_most_once, onClose_only_at_lost); after loss the state is CLOSED. The remaining clauses (one close frame, legal code/reason, clean iff both directions, bounded closing) are decided by the CloseSpec trace oracle on real Twisted/asyncio objects over generated histories, with the model compared after every event; three defects found this way were repaired in /repo.',
+    "note": 'Trusted: Lean kernel; model tied by differential execution; framework contract: connectionLost at most once and no input after it; OS socket teardown not modelled.',
+}
 TRUSTED = [
     "Lean 4.33 kernel; axioms of every theorem within {propext, Classical.choice, Quot.sound}",
     "hand-written model Abverif/Model/Ws.lean of sendClose/sendCloseFrame/onCloseFrame/dropConnection/_connectionLost/"
